@@ -202,6 +202,15 @@ theorem output_is_lib_prefix (cfg : Cfg) (allowTrailing trailing : Bool) (steps 
   · rw [coderNormal_success]; simp [libSuccess]
   · intro h; exact coderNormal_sizes cfg allowTrailing trailing steps [] (by simpa using h)
 
+/-- The `io_write` sequence depends only on the bytes the library produced — not on how many `lzma_code` calls it
+    took or where they stopped (threads, timeouts, input chunking): full buffers, then the remainder. The model driver
+    uses one canonical call sequence; by this theorem any other fitting sequence with the same output gives the same
+    writes, hence the same `lseek`/`write` trace. -/
+theorem writes_determined_by_output (cfg : Cfg) (hB : 0 < cfg.bufSize) (allowTrailing trailing : Bool)
+    (steps : List Step) (hfit : stepsFit cfg steps 0 = true) (hfin : libFinal steps ≠ none) :
+    (coderNormal cfg allowTrailing trailing steps []).writes = splitFull cfg.bufSize (libOutput steps) := by
+  simpa using coderNormal_writes_split cfg hB allowTrailing trailing steps [] (by simpa using hB) (by simpa using hfit) hfin
+
 /-- End to end for `xz -dc` on one recognised file whose headers decoded: standard output receives exactly the
     library's output (placed by `write` semantics) when the run succeeds, and also when it fails provided the
     real `io_close` has the `failFlush` behaviour; the flags of standard output are as before. -/
